@@ -109,6 +109,22 @@ func c11Provenance(r *Run) {
 						}
 					}
 				}
+				if !ok {
+					// on the SSA form: also through a validating helper that hands the (converted) key back
+					if fn := w.SSAFunc(f); fn != nil {
+						for _, b := range fn.Blocks {
+							for _, ins := range b.Instrs {
+								if sc, isCall := ins.(*ssa.Call); isCall && sc.Pos() == c.Lparen {
+									for _, mname := range []string{"MapIndex", "SetMapIndex"} {
+										if _, args, isMI := reflectValueCall(sc, mname); isMI && len(args) >= 1 {
+											ok = keyProvenanceSSA(w, fn, args[0], 0)
+										}
+									}
+								}
+							}
+						}
+					}
+				}
 				if ok {
 					r.Ok("R1", f.Name(), con, w.Pos(c.Pos()), "reflect.ValueOf of the evaluated key (converted to the key type at most)")
 				} else {
@@ -305,7 +321,9 @@ func c11PointerTransparency(r *Run) {
 		}
 		return true
 	})
-	if derefPos.IsValid() && structPos.IsValid() && derefPos < structPos {
+	if c11MemberDerefSSA(r, "R4", id) {
+		// decided on the paths of the SSA form (for a struct and for a pointer to a struct)
+	} else if derefPos.IsValid() && structPos.IsValid() && derefPos < structPos {
 		r.Ok("R4", id.Name(), "pointer dereferenced before the struct test", w.Pos(derefPos), "if Kind()==Ptr { rv = rv.Elem() } ... if Kind() != Struct { error }")
 	} else {
 		r.Bad("R4", id.Name(), "pointer dereference before the struct test", w.Pos(id.Decl.Pos()), "fields of a pointer to a struct must be reachable: the pointer must be dereferenced before the value is required to be a struct")
